@@ -89,6 +89,10 @@ def relation(bib, lib_abs, f, got, fixed, col):
                 return "content", f"entry header {head!r} does not carry type/key"
             if any(x["k"] + " " in r[pos + len(fx):] for x in b["fields"]):
                 return "field_lines", f"entry {b['key']!r} repeats a field after its field lines"
+            # a comma follows every field (last one iff trailing_comma) - and nothing else but the key
+            inside = sum(x["k"].count(",") + x["v"].count(",") for x in b["fields"]) + b["key"].count(",") + b["type"].count(",")
+            if r.count(",") - inside > fx.count(",") - sum(x["k"].count(",") + x["v"].count(",") for x in b["fields"]) + 1:
+                return "comma_rule", f"entry {b['key']!r} is written with a comma that follows no field: {r!r}"
         elif b["t"] == "failed":
             if not r.startswith(fx.rstrip("\n")):
                 return "failed_block_rendering", f"expected {fx!r} at the start of {r!r}"
